@@ -148,6 +148,37 @@ def check(case):
                 changed_something = True
                 labels.add("changed:" + _key_kind(key))
             labels.add("key:" + _key_kind(key))
+        elif kind == "perturb":
+            # any shallow scalar parameter (int / float / bool), also those the configuration strategies never vary:
+            # set_params does not validate values (scikit-learn validates in fit), so a perturbed value is a legal argument
+            px = x.get_params(deep=False)
+            scal = sorted(k for k, v in px.items() if isinstance(v, (bool, int, float)) and not isinstance(v, str))
+            if not scal:
+                continue
+            key = scal[op[2] % len(scal)]
+            v = px[key]
+            newv = (not v) if isinstance(v, bool) else (v + 1 if isinstance(v, int) else v * 2.0 + 0.5)
+            before = R.params_image(x)
+            f2 = dict(facts, key_kind="perturbed-scalar", key=key)
+            r = _guard("set_params", lambda: x.set_params(**{key: newv}), f2)
+            require(r is x, "set_params:does-not-return-self", "set_params(%s=...) returned %r" % (key, type(r).__name__), f2)
+            after = R.params_image(x)
+            require(after.get(key) == R.norm_param(newv), "set_params:key-not-set", "%s: get_params reports %r after setting %r" % (key, after.get(key), newv), f2)
+            for k in before:
+                if not _related(k, key):
+                    require(k in after and after[k] == before[k], "set_params:changes-other-key",
+                            "set_params(%s=...) changed %r: %r -> %r" % (key, k, _short(before[k]), _short(after.get(k, "<missing>"))), f2)
+            try:
+                c2 = clone(x)
+            except (AssertionError, ValueError, TypeError):
+                c2 = None        # the constructor validates interdependent values (delay1 < delay2, ...): a refusal, not a defect
+                labels.add("perturbed-value-refused-by-constructor")
+            if c2 is not None:
+                require(R.params_image(c2) == after, "clone:params-differ", _diff(R.params_image(c2), after), f2)
+            # restore, so that later behavioural comparisons use valid configurations
+            x.set_params(**{key: v})
+            changed_something = True
+            labels.add("perturbed-scalar")
         elif kind == "set_all":
             params = {k: _copy_value(v) for k, v in other.get_params(deep=True).items()}
             want = {k: R.norm_param(v) for k, v in params.items()}
@@ -226,9 +257,9 @@ def _cases(draw, tier="quick", only=None):
     nops = draw(st.integers(1, 6 if tier == "quick" else 12))
     ops = []
     for _ in range(nops):
-        k = draw(st.sampled_from(["set", "set", "set", "set_all", "clone"]))
-        if k == "set":
-            ops.append(["set", draw(st.integers(0, 1)), draw(st.integers(0, 200))])
+        k = draw(st.sampled_from(["set", "set", "set", "set_all", "clone", "perturb"]))
+        if k in ("set", "perturb"):
+            ops.append([k, draw(st.integers(0, 1)), draw(st.integers(0, 200))])
         else:
             ops.append([k, draw(st.integers(0, 1))])
     case = dict(cls=name, A=A, B=B, ops=ops, seed=draw(st.integers(0, 2**31 - 3)))
